@@ -364,8 +364,9 @@ pub struct EntriesIter {
     // Stack of entry iterators for current directories being iterated over
     iters: Vec<EntryIter>,
 
-    // Stack of deferred directories to return after their contents
-    deferred: Vec<VfsEntry>,
+    // Stack of deferred directories to return after their contents, each with the iterator depth it
+    // was found at: its contents have been processed once the iterator stack is back at that depth
+    deferred: Vec<(VfsEntry, usize)>,
 
     // Optional filter that yields only entries that match the predicate
     #[allow(clippy::type_complexity)]
@@ -426,7 +427,7 @@ impl EntriesIter {
 
         // Defer directories as directed
         if entry.is_dir() && self.opts.contents_first {
-            self.deferred.push(entry);
+            self.deferred.push((entry, depth));
             return None;
         }
 
@@ -478,8 +479,8 @@ impl Iterator for EntriesIter {
         // Loop here to ensure that we get the next entry when filtering or deferring
         while !self.iters.is_empty() {
             // Return deferred directories if we've already processed their children
-            if self.opts.contents_first && self.iters.len() < self.deferred.len() {
-                if let Some(entry) = self.deferred.pop() {
+            if self.opts.contents_first && self.deferred.last().map_or(false, |x| self.iters.len() <= x.1) {
+                if let Some((entry, _)) = self.deferred.pop() {
                     return Some(Ok(entry));
                 }
             }
@@ -503,8 +504,8 @@ impl Iterator for EntriesIter {
         }
 
         // Return root directory for deferred case
-        if self.opts.contents_first && self.iters.len() < self.deferred.len() {
-            if let Some(entry) = self.deferred.pop() {
+        if self.opts.contents_first && self.deferred.last().map_or(false, |x| self.iters.len() <= x.1) {
+            if let Some((entry, _)) = self.deferred.pop() {
                 return Some(Ok(entry));
             }
         }
